@@ -30,8 +30,9 @@ type VMSpec struct {
 }
 
 type RelSpec struct {
-	Ref string  `json:"ref,omitempty"`
-	VM  *VMSpec `json:"vm,omitempty"`
+	Ref   string  `json:"ref,omitempty"`
+	VM    *VMSpec `json:"vm,omitempty"`
+	Unset bool    `json:"unset,omitempty"` // an entry whose oneof is not set at all (tag + zero length on the wire)
 }
 
 type SvcSpec struct{ Id, Type, Endpoint string }
@@ -120,7 +121,9 @@ func (e *Env) buildVM(v *VMSpec) *didtypes.VerificationMethod {
 func (e *Env) buildRels(rs []RelSpec) []didtypes.VerificationRelationship {
 	var out []didtypes.VerificationRelationship
 	for i := range rs {
-		if rs[i].VM != nil {
+		if rs[i].Unset {
+			out = append(out, didtypes.VerificationRelationship{})
+		} else if rs[i].VM != nil {
 			out = append(out, didtypes.NewVerificationRelationshipDedicated(*e.buildVM(rs[i].VM)))
 		} else {
 			out = append(out, didtypes.NewVerificationRelationship(rs[i].Ref))
